@@ -748,6 +748,10 @@ func c12Scenario1(c *Ctx, si int) {
 		for i := 0; i < 6; i++ {
 			cacheNames[gen.Atom(fmt.Sprintf("cached%d", i))] = uint16(300 + i*255)
 		}
+		// names for Terminate* frames (one message each: the frame carries nothing else to tell two apart)
+		for i := 0; i < 24; i++ {
+			cacheNames[gen.Atom(fmt.Sprintf("tcached%d", i))] = uint16(3000 + i*7)
+		}
 		o.AtomCache = cacheNames
 	}
 	nmsg := 20 + rng.Intn(41)
@@ -767,6 +771,7 @@ func c12Scenario1(c *Ctx, si int) {
 
 	msgs := make([]*c12Msg, nmsg)
 	base := uint64(1000 + si*100000)
+	tcNext := 0
 	for i := range msgs {
 		m := &c12Msg{Idx: i, Kind: c12Kinds[rng.Intn(len(c12Kinds))]}
 		if (m.Kind == "LinkPID" || m.Kind == "MonitorPID") && rng.Chance(2, 3) {
@@ -795,6 +800,9 @@ func c12Scenario1(c *Ctx, si int) {
 		case 2:
 			if o.AtomCache != nil && !strings.HasPrefix(m.Kind, "Terminate") {
 				m.Name = gen.Atom(fmt.Sprintf("cached%d", rng.Intn(6)))
+			} else if o.AtomCache != nil && tcNext < 24 {
+				m.Name = gen.Atom(fmt.Sprintf("tcached%d", tcNext))
+				tcNext++
 			} else {
 				m.Name = gen.Atom(fmt.Sprintf("q%d_%d", si, i))
 			}
@@ -1435,7 +1443,12 @@ func c12CheckWire(c *Ctx, sc c12Scenario, o w5Opts, p *w5Pair, msgs []*c12Msg) {
 		case typ == 182 || typ == 185:
 			key = "tn" + name
 		case typ == 183 || typ == 186:
-			key = "" // cached terminate names are not generated
+			key = "tn?" // a cached name: look the id up in the table both sides were given
+			for nm, id := range o.AtomCache {
+				if fmt.Sprint(id) == fields["cacheid"] {
+					key = "tn" + string(nm)
+				}
+			}
 		case typ == 184:
 			key = "ta" + fields["target.ID[0]"]
 		default:
